@@ -142,6 +142,8 @@ class SimRemoteFS(MemoryFileSystem):
             else:
                 data = from_file.read()
         else:
+            if self.seam.faults:
+                self.seam.point("copy_open_src", os.fspath(from_file), f"<{self.sim_name}>{to_info}")
             with REAL["open"](os.fspath(from_file), "rb") as f:
                 data = f.read()
         self._commit(to_info, data)
